@@ -21,7 +21,7 @@ LEVEL_TEXT = ('Theorems in Properties_C17.v about Model/Endpoints.v for EVERY dr
               '(delivered ++ remaining = stream; what reached the sink is a prefix), EINTR/EAGAIN never surface, hard errors are returned, invalid counts are refused without a driver call, the at-most variants never exceed the request; '
               'all retry loops terminate (the fuel of the model is proved adequate); the per-octet, fixed-count, counted and draining source-to-sink plumbing, without and with an auxiliary buffer, moves exactly n / everything in order or returns an error with a '
               'prefix in the sink (at most the octet - or the scratch-buffer load - in flight lost), writes only the start of the scratch image, and terminates, for EVERY source script and EVERY sink script (zero-length answers, EINTR/EAGAIN, '
-              'hard errors on either side); the library's own chunk-style drivers of endpoints/buffer.c - byte buffer as source, chunk list as source, byte buffer as sink - under the same loops: exactly the next N unread octets (across chunk borders and exhausted chunks) or all that is there plus end-of-data; appended exactly or refused unchanged (C17_buffer_source, C17_chunk_list_source, C17_buffer_sink).')
+              'hard errors on either side); the chunk-style drivers the library itself provides in endpoints/buffer.c - byte buffer as source, chunk list as source, byte buffer as sink - under the same loops: exactly the next N unread octets (across chunk borders and exhausted chunks) or all that is there plus end-of-data; appended exactly or refused unchanged (C17_buffer_source, C17_chunk_list_source, C17_buffer_sink).')
 LEVEL_NOTE = 'Trusted: Coq kernel; hand model of endpoints/core.c (correspondence-tested); harness with scripted drivers. Partial: getbuffer-extension paths not modelled. No axioms.'
 
 EV = [1, 2, 3, 99, 0, -4, -11, -5, -12]
